@@ -6,7 +6,7 @@ from contracts import c07 as _c07
 from contracts import c16 as _c16
 from contracts import c19 as _c19
 
-SPEC_IMPORTS = ['contracts.common', 'contracts.c07', 'contracts.c16', 'contracts.c19', 'contracts.c10']
+SPEC_IMPORTS = ['contracts.common', 'contracts.c07', 'contracts.c16', 'contracts.c19', 'contracts.c10', 'contracts.c03']
 SPEC_FUNCTIONS = ['goes_to_map', 'is_file_rename']
 
 _PN = Obj('PNode')
@@ -135,5 +135,6 @@ TRUSTED = ['Refactoring.__init__ stores its arguments', 'pathlib model', 'dict-o
 def dynamic_contracts(repo):
     """a use reaches its definition through every chain of star imports (goto is how the reference search connects
     occurrences): the star-import closure contracts are shared with C10"""
-    from contracts import c10
-    return [c10._star, c10._star2]
+    from contracts import c10, c03
+    # ... and a private (name-mangled) attribute is only connected to accesses inside its class (shared with C03)
+    return [c10._star, c10._star2] + list(c03._PRIVATE)
